@@ -70,10 +70,24 @@ func nhScenarioSMC(rec *nhRec, tid int, seed int64, smType string, store string,
 							}
 							rs.Release()
 						}
-					} else if rng.Intn(2) == 0 {
+					} else if x := rng.Intn(3); x == 0 {
 						ctx, cancel := context.WithTimeout(context.Background(), 200*time.Millisecond)
 						_, _ = nh.SyncRead(ctx, shard, nhQuery{Op: "r", K: "a"})
 						cancel()
+					} else if x == 1 {
+						// the no-allocation variant: ReadIndex, then NAReadLocalNode (statemachine.IExtended)
+						rs, err := nh.ReadIndex(shard, 200*time.Millisecond)
+						if err == nil {
+							select {
+							case res := <-rs.ResultC():
+								if res.Completed() {
+									q, _ := json.Marshal(nhQuery{Op: "r", K: "a"})
+									_, _ = nh.NAReadLocalNode(rs, q)
+								}
+							case <-time.After(time.Second):
+							}
+							rs.Release()
+						}
 					} else {
 						_, _ = nh.StaleRead(shard, nhQuery{Op: "r", K: "a"})
 					}
